@@ -1,7 +1,8 @@
 import PeliteModel.Driver.Image
 import PeliteModel.Model.JsonDirs
 /-! Driver handlers: `jsonsub <k>` (the modelled subset of the header part of the JSON rendering),
-`jsonsub <k> <field>` (one top-level member of the document, whole, as canonical text), `json <k>`
+`jsonsub <k> <field>` (one top-level member of the document, whole, as canonical text),
+`jsontext <k> <field>` (the printed text of that member, hex), `json <k>`
 (outcome class only), `relocs <k> dump` (image-level base relocations). -/
 namespace Pelite.Driver
 open Pelite.Proto Pelite.Pe
@@ -58,6 +59,17 @@ def jsonField (img : Option Img) (k field : String) : String :=
        | none => "missing")
     | o => outStr (fun _ => "") o
 
+/-- `jsontext <k> <field>`: the text `Json.print` gives for the member (hex), to be compared with the
+bytes serde_json wrote -/
+def jsonText (img : Option Img) (k field : String) : String :=
+  withView img k fun v =>
+    match v.serializePe with
+    | .ok doc =>
+      (match doc.toJson.field field with
+       | some j => "ok " ++ String.ofList (j.print.flatMap fun b => [hexDigit (b / 16), hexDigit (b % 16)])
+       | none => "missing")
+    | o => outStr (fun _ => "") o
+
 def relocsDump (img : Option Img) (k : String) : String :=
   withView img k fun v =>
     match v.baseRelocsRef, v.baseRelocsBytes with
@@ -71,6 +83,7 @@ def dispatchJson : Handler := fun st fam a =>
   match fam, a with
   | "jsonsub", [k] => some (jsonSub st.img k)
   | "jsonsub", [k, field] => some (jsonField st.img k field)
+  | "jsontext", [k, field] => some (jsonText st.img k field)
   | "json", [k] => some (withView st.img k fun _ => "ok")
   | "relocs", [k, "dump"] => some (relocsDump st.img k)
   | _, _ => none
